@@ -379,8 +379,9 @@ def _fully(repo, col):
     # (module-level helpers that only compute a value -- `first_comp_nodes(view)` -- are looked through)
     pre, post = (idx.inline(repo, fi, ex.term(c.args[0]), value_only=True, keep=("sample_comp",)), idx.inline(repo, fi, ex.term(c.args[1]), value_only=True, keep=("sample_comp",)))
     pre_param, post_param = fi.params[0], fi.params[1]
+    pre, post = _method_form(pre), _method_form(post)
     # pre rows: first compartment of each pre cell, repeated
-    rep = T.find(pre, lambda x: x.op == "mcall" and x.name == "repeat")
+    rep = T.find(pre, lambda x: x.op == "mcall" and x.name in ("repeat", "tile"))
     src = T.find(pre, lambda x: x.op == "attr" and x.name == "nodes")
     ok, why = _is_first_comp_of(rep.args[0].args[0] if rep is not None and rep.args[0].op == "attr" else pre, pre_param)
     col.check(ok, "R-C20-roles", fi, "fully_connect: presynaptic site = local branch 0, comp 0 of each pre cell",
@@ -399,7 +400,10 @@ def _fully(repo, col):
         col.unk("R-C20-layout", fi, "fully_connect pairing", "row selectors not found", node=c)
         return
     try:
-        pre_l = layout_of(T("mcall", "repeat", [_rows_layout_src(rep.args[0], pre_param), rep.args[1]]))
+        if rep.name == "tile":     # np.tile(rows, n): the whole list n times (repetition is the SLOW axis)
+            pre_l = layout_of(T("mcall", "tile", [rep.args[0], _rows_layout_src(rep.args[1], pre_param), rep.args[2]]))
+        else:
+            pre_l = layout_of(T("mcall", "repeat", [_rows_layout_src(rep.args[0], pre_param), rep.args[1]]))
     except (Unknown, Mismatch) as e:
         col.unk("R-C20-layout", fi, "fully_connect: layout of pre rows", str(e), node=c)
         return
@@ -418,6 +422,22 @@ def _fully(repo, col):
     col.check(ok, "R-C20-layout", fi, "fully_connect: row t pairs pre cell t // num_post with post cell t % num_post",
               f"pre {pre_l}, post {post_l}",
               f"pre rows are laid out as {pre_l} but post rows as {post_l}: {why}", node=lp.args[1].node or c)
+
+
+def _method_form(t: T) -> T:
+    """np.repeat(A, n) / np.ravel(A) / np.reshape(A, s) / np.transpose(A) in their method spelling; A.reshape(-1) is A.ravel()"""
+    if not t.args and not t.kw:
+        return t
+    args = [_method_form(a) for a in t.args]
+    kw = {k: _method_form(v) for k, v in t.kw.items()}
+    if t.op == "mcall" and args and args[0].op == "free" and args[0].name in ("np", "jnp", "numpy") and \
+            t.name in ("repeat", "ravel", "reshape", "transpose") and len(args) >= 2:
+        args = args[1:]
+    if t.op == "mcall" and t.name == "reshape" and len(args) == 2 and not kw and (
+            (args[1].op == "const" and args[1].name == -1) or
+            (args[1].op == "unary" and args[1].name == "USub" and args[1].args[0].op == "const" and args[1].args[0].name == 1)):
+        return T("mcall", "ravel", [args[0]], {}, t.node)
+    return T(t.op, t.name, args, kw, t.node)
 
 
 def _rows_layout_src(idx_t: T, pre_param):
@@ -665,7 +685,18 @@ def _matrix(repo, col):
             "the (num_pre, num_post) shape assertion is missing or transposed", node=fi.node)
     col.check(dtype_ok, "R-C20-roles", fi, "matrix connect: boolean dtype asserted",
               "dtype == bool", "the dtype assertion is missing", node=fi.node)
-    # np.where(matrix) -> (rows, cols) -> (pre, post)
+    # np.where(matrix) -> (rows, cols) -> (pre, post); of the TRANSPOSED matrix the first coordinate is the column (post cell)
+    def coord(item_t):
+        """which coordinate of the matrix AS GIVEN the term `where(...)#k` is: 0 = row (pre), 1 = column (post), None = not derivable"""
+        w_ = T.find(item_t, lambda x: x.op == "mcall" and x.name in ("where", "nonzero") and len(x.args) >= 2)
+        if w_ is None or item_t.name not in (0, 1):
+            return None
+        m_ = w_.args[1]
+        while m_.op == "mcall" and m_.name in ("asarray", "array", "astype", "copy") and m_.args:
+            m_ = next((a_ for a_ in m_.args if a_.op != "free"), m_.args[0])
+        if (m_.op == "attr" and m_.name == "T") or (m_.op == "mcall" and m_.name == "transpose" and len(m_.args) == 1):
+            return 1 - item_t.name
+        return item_t.name
     w = T.find(post, lambda x: x.op == "mcall" and x.name in ("where", "nonzero"))
     ok_post = False
     sc = T.find(post, lambda x: x.op == "call" and x.name == "sample_comp")
@@ -674,7 +705,7 @@ def _matrix(repo, col):
         if cellarg is not None:
             it = T.find(cellarg, lambda x: x.op == "sub" and x.args[1].op == "item")
             if it is not None:
-                which = it.args[1].name
+                which = coord(it.args[1])
                 src = it.args[0]
                 ok_post = which == 1 and T.find(src, lambda x: x.op == "param" and x.name == post_param) is not None
             v = sc.args[0]
@@ -688,7 +719,7 @@ def _matrix(repo, col):
               f"post cells are {post.short(200)}", node=c)
     it = T.find(pre, lambda x: x.op == "sub" and x.args[1].op == "item" and
                 T.find(x.args[1], lambda y: y.op == "mcall" and y.name in ("where", "nonzero")) is not None)
-    ok_pre = it is not None and it.args[1].name == 0 and T.find(it.args[0], lambda x: x.op == "param" and x.name == pre_param) is not None
+    ok_pre = it is not None and coord(it.args[1]) == 0 and T.find(it.args[0], lambda x: x.op == "param" and x.name == pre_param) is not None
     col.check(ok_pre, "R-C20-roles", fi, "matrix connect: row index selects the pre cell", "pre_cell_inds[from_idx]",
               f"pre cells are {pre.short(200)}", node=c)
     # pre site: first compartment of the pre cell
